@@ -28,7 +28,11 @@ SB_FIELDS = [("s_inodes_count", 0, 4), ("s_blocks_count_lo", 4, 4), ("s_r_blocks
              ("s_blocks_count_hi", 336, 4), ("s_min_extra_isize", 348, 2), ("s_want_extra_isize", 350, 2), ("s_flags", 352, 4),
              ("s_mmp_block", 360, 8), ("s_log_groups_per_flex", 372, 1), ("s_usr_quota_inum", 576, 4),
              ("s_grp_quota_inum", 580, 4), ("s_backup_bgs0", 588, 4), ("s_backup_bgs1", 592, 4), ("s_prj_quota_inum", 620, 4),
-             ("s_checksum_seed", 624, 4), ("s_orphan_file_inum", 0x288, 4)]
+             ("s_checksum_seed", 624, 4), ("s_orphan_file_inum", 0x280, 4)]
+GEOMETRY = ("s_inodes_count", "s_blocks_count_lo", "s_first_data_block", "s_log_block_size", "s_log_cluster_size",
+            "s_blocks_per_group", "s_clusters_per_group", "s_inodes_per_group", "s_first_ino", "s_inode_size",
+            "s_reserved_gdt_blocks", "s_desc_size", "s_first_meta_bg", "s_log_groups_per_flex", "s_rev_level",
+            "s_min_extra_isize", "s_want_extra_isize", "s_blocks_count_hi")
 GD_FIELDS = [("bg_block_bitmap_lo", 0, 4), ("bg_inode_bitmap_lo", 4, 4), ("bg_inode_table_lo", 8, 4),
              ("bg_free_blocks_count_lo", 12, 2), ("bg_free_inodes_count_lo", 14, 2), ("bg_used_dirs_count_lo", 16, 2),
              ("bg_flags", 18, 2), ("bg_exclude_bitmap_lo", 20, 4), ("bg_block_bitmap_csum_lo", 24, 2),
@@ -230,6 +234,13 @@ def gen_struct_faults(rng, data, n=1, reseal_p=0.5, kinds=None):
     out = []
     inodes = None
 
+    def special(ino):
+        # inodes the tools own: the reserved ones and the hidden ones the superblock names (a project quota file and an
+        # orphan file take ordinary inode numbers)
+        return ino < fs.sb["s_first_ino"] or ino in (fs.sb.get("s_journal_inum"), fs.sb.get("s_usr_quota_inum"),
+                                                      fs.sb.get("s_grp_quota_inum"), fs.sb.get("s_prj_quota_inum"),
+                                                      fs.sb.get("s_orphan_file_inum"))
+
     def live_inodes():
         nonlocal inodes
         if inodes is None:
@@ -245,8 +256,11 @@ def gen_struct_faults(rng, data, n=1, reseal_p=0.5, kinds=None):
         return inodes
 
     weights = [("sb", 3), ("gd", 4), ("bbitmap", 3), ("ibitmap", 2), ("inode", 6), ("extent_root", 4), ("extent_block", 3),
-               ("indirect", 2), ("dirent", 5), ("dx", 3), ("xattr_block", 3), ("xattr_inode", 2), ("special_inode", 3)]
-    if kinds:
+               ("indirect", 2), ("dirent", 5), ("dx", 3), ("xattr_block", 3), ("xattr_inode", 2), ("special_inode", 3),
+               ("pointer", 5), ("bitmap_csum", 2), ("sb_geometry", 2)]
+    if isinstance(kinds, dict):
+        weights = sorted(kinds.items())
+    elif kinds:
         weights = [(k, w) for k, w in weights if k in kinds]
     tries = 0
     while len(out) < n and tries < n * 12:
@@ -258,6 +272,21 @@ def gen_struct_faults(rng, data, n=1, reseal_p=0.5, kinds=None):
         try:
             if kind == "sb":
                 name, cur, new = _field(rng, s, 1024, SB_FIELDS)
+                if seal:
+                    s.seal_super()
+                what, cls = "sb.%s %#x->%#x" % (name, cur, new), "sb." + name
+            elif kind == "sb_geometry":
+                # the fields every size, count and divisor in the library is derived from
+                name, cur, new = _field(rng, s, 1024, [f for f in SB_FIELDS if f[0] in GEOMETRY])
+                if rng.chance(0.3):
+                    # just past what the block size allows
+                    lim = {"s_desc_size": bs, "s_inode_size": bs, "s_inodes_per_group": bs * 8, "s_blocks_per_group": bs * 8,
+                           "s_clusters_per_group": bs * 8, "s_reserved_gdt_blocks": bs // 4, "s_first_ino": fs.sb["s_inodes_count"],
+                           "s_log_groups_per_flex": 31, "s_log_block_size": 6, "s_log_cluster_size": 6}.get(name)
+                    if lim is not None:
+                        fo, sz = next((f[1], f[2]) for f in SB_FIELDS if f[0] == name)
+                        new = (lim * rng.choice([1, 2, 2, 4]) + rng.choice([0, 0, 1, 8])) & ((1 << 8 * sz) - 1)
+                        s.w(1024 + fo, new.to_bytes(sz, "little"))
                 if seal:
                     s.seal_super()
                 what, cls = "sb.%s %#x->%#x" % (name, cur, new), "sb." + name
@@ -293,7 +322,7 @@ def gen_struct_faults(rng, data, n=1, reseal_p=0.5, kinds=None):
                 if not li:
                     continue
                 if kind == "special_inode":
-                    cand = [(n_, i) for n_, i in li if n_ < fs.sb["s_first_ino"] or n_ in (fs.sb.get("s_journal_inum"), )]
+                    cand = [(n_, i) for n_, i in li if special(n_)]
                     if not cand:
                         continue
                     ino, i = rng.choice(cand)
@@ -302,7 +331,7 @@ def gen_struct_faults(rng, data, n=1, reseal_p=0.5, kinds=None):
                 ioff = fs.inode_loc(ino)
                 if kind in ("inode", "special_inode"):
                     name, cur, new = _field(rng, s, ioff, INODE_FIELDS, fs.inode_size)
-                    what, cls = "inode[%d].%s %#x->%#x" % (ino, name, cur, new), ("special_inode." if ino < fs.sb["s_first_ino"] else "inode.") + name
+                    what, cls = "inode[%d].%s %#x->%#x" % (ino, name, cur, new), ("special_inode." if special(ino) else "inode.") + name
                 elif kind == "extent_root":
                     if not (i.flags & 0x80000) or (i.flags & 0x10000000):
                         continue
@@ -338,6 +367,131 @@ def gen_struct_faults(rng, data, n=1, reseal_p=0.5, kinds=None):
                         what, cls = "inode[%d] in-inode xattr entry0.%s %#x->%#x" % (ino, name, cur, new), "xattr_inode." + name
                 if seal:
                     s.seal_inode(ino)
+            elif kind == "bitmap_csum":
+                # a stale bitmap checksum inside a descriptor that itself verifies (bitmap written, descriptor not, or
+                # the reverse); only groups whose bitmap is in use
+                if not fs.csum:
+                    continue
+                which = rng.below(2)
+                gs = [g for g in range(fs.group_count) if not fs.group_flags(g) & (2 if which == 0 else 1)]
+                if not gs:
+                    continue
+                g = rng.choice(gs)
+                off = fs.group_desc(g)["offset"]
+                fo = (0x18 if which == 0 else 0x1A) if (fs.desc_size < 64 or rng.chance(0.6)) else (0x38 if which == 0 else 0x3A)
+                cur = s.u16(off + fo)
+                new = new_value(rng, cur, 2)
+                s.p16(off + fo, new)
+                s.seal_gd(g)
+                seal = True
+                what, cls = "gd[%d] %s bitmap checksum field@%#x %#x->%#x" % (g, "block" if which == 0 else "inode", fo, cur, new), \
+                    "gd.%s_bitmap_csum" % ("block" if which == 0 else "inode")
+            elif kind == "pointer":
+                # a block or inode number set to a boundary of this filesystem's own limits
+                bc = fs.sb["s_blocks_count"]
+                ic = fs.sb["s_inodes_count"]
+                fdb = fs.first_data_block
+                li = live_inodes()
+                if not li:
+                    continue
+                sub = rng.weighted([("file_acl", 3), ("extent_leaf", 3), ("extent_idx", 1), ("i_block", 2), ("dirent_inode", 3),
+                                    ("gd_loc", 2)])
+                if sub == "dirent_inode":
+                    dirs = [(n_, i) for n_, i in li if (i.mode & 0xF000) == 0x4000 and not (i.flags & 0x10000000)]
+                    if not dirs:
+                        continue
+                    ino, i = rng.choice(dirs)
+                    blocks = fs.dir_blocks(i)
+                    if not blocks:
+                        continue
+                    lblk, pblk = rng.choice(blocks)
+                    o = pblk * bs
+                    offs = []
+                    p = 0
+                    while p + 8 <= bs and len(offs) < 400:
+                        rl = s.u16(o + p + 4)
+                        if s.u32(o + p) and s.d[o + p + 6]:
+                            offs.append(p)
+                        if rl < 8 or rl % 4:
+                            break
+                        p += rl
+                    if not offs:
+                        continue
+                    p = rng.choice(offs)
+                    cur = s.u32(o + p)
+                    new = rng.choice([ic, ic + 1, ic + 1, ic - 1, fs.sb["s_first_ino"] - 1, 1])
+                    if new == cur:
+                        continue
+                    s.p32(o + p, new)
+                    if seal:
+                        s.seal_dir_leaf(ino, pblk)
+                    what, cls = "dir inode[%d] lblk %d entry@%d inode %d->%d (inodes_count %d)" % (ino, lblk, p, cur, new, ic), "dirent.inode@limit"
+                elif sub == "gd_loc":
+                    g = rng.below(fs.group_count)
+                    off = fs.group_desc(g)["offset"]
+                    name, fo, span = rng.choice([("bg_block_bitmap_lo", 0, 1), ("bg_inode_bitmap_lo", 4, 1),
+                                                 ("bg_inode_table_lo", 8, fs.itable_blocks)])
+                    cur = s.u32(off + fo)
+                    new = rng.choice([bc, bc - span + 1, bc - span + 1, bc + 1, max(fdb - 1, 0)])
+                    if new == cur:
+                        continue
+                    s.p32(off + fo, new)
+                    if seal:
+                        s.seal_gd(g)
+                    what, cls = "gd[%d].%s %d->%d (blocks_count %d)" % (g, name, cur, new, bc), "gd." + name + "@limit"
+                else:
+                    if sub == "file_acl":
+                        cand = li
+                    elif sub == "i_block":
+                        cand = [(n_, i) for n_, i in li if not (i.flags & 0x80000) and not (i.flags & 0x10000000) and fs.has_block_map(i)]
+                    else:
+                        cand = [(n_, i) for n_, i in li if (i.flags & 0x80000) and not (i.flags & 0x10000000)]
+                    if not cand:
+                        continue
+                    ino, i = rng.choice(cand)
+                    ioff = fs.inode_loc(ino)
+                    if sub == "file_acl":
+                        cur = s.u32(ioff + 104)
+                        new = rng.choice([bc, bc, bc + 1, bc - 1, max(fdb - 1, 0)])
+                        if new == cur:
+                            continue
+                        s.p32(ioff + 104, new)
+                        what, cls = "inode[%d].i_file_acl %d->%d (blocks_count %d)" % (ino, cur, new, bc), "inode.i_file_acl_lo@limit"
+                    elif sub == "i_block":
+                        k = rng.below(15)
+                        cur = s.u32(ioff + 40 + 4 * k)
+                        new = rng.choice([bc, bc, bc + 1, bc - 1, max(fdb - 1, 0)])
+                        if new == cur:
+                            continue
+                        s.p32(ioff + 40 + 4 * k, new)
+                        what, cls = "inode[%d].i_block[%d] %d->%d (blocks_count %d)" % (ino, k, cur, new, bc), "blockmap.i_block@limit"
+                    else:
+                        entries = s.u16(ioff + 40 + 2)
+                        depth = s.u16(ioff + 40 + 6)
+                        if entries == 0 or entries > 4 or (depth == 0) != (sub == "extent_leaf"):
+                            continue
+                        k = rng.below(entries)
+                        eo = ioff + 40 + 12 + 12 * k
+                        if depth == 0:
+                            ln = s.u16(eo + 4)
+                            ln = ln - 32768 if ln > 32768 else ln
+                            cur = s.u32(eo + 8)
+                            new = rng.choice([bc - ln + 1, bc - ln + 1, bc, bc - ln, bc + 1])
+                            if new == cur or new < 0:
+                                continue
+                            s.p32(eo + 8, new)
+                            what, cls = "inode[%d] extent[%d] start %d->%d len %d (blocks_count %d)" % (ino, k, cur, new, ln, bc), "extent_root.ee_start_lo@limit"
+                        else:
+                            cur = s.u32(eo + 4)
+                            new = rng.choice([bc, bc, bc + 1, bc - 1, max(fdb - 1, 0)])
+                            if new == cur:
+                                continue
+                            s.p32(eo + 4, new)
+                            what, cls = "inode[%d] extent index[%d] leaf %d->%d (blocks_count %d)" % (ino, k, cur, new, bc), "extent_root.ei_leaf_lo@limit"
+                    if special(ino) and cls:
+                        cls = "special_inode." + cls.split(".", 1)[1]
+                    if seal:
+                        s.seal_inode(ino)
             elif kind == "extent_block":
                 li = [(n_, i) for n_, i in live_inodes() if (i.flags & 0x80000) and not (i.flags & 0x10000000)]
                 rng.shuffle(li)
